@@ -75,8 +75,20 @@ FamE == { <<S0, << <<1, Gate("after_wake")>>, <<1, BLPop1>>, Tk(600), <<3, PushA
 FamF == { <<SDstStr, << <<1, bc>>, <<3, PushA>>, <<3, LLenA>>, <<1, PingC>> >> >> : bc \in {BLMove, BRPopLPush} }
         \cup { <<SDstStr, << <<1, bc>>, <<2, BLPop0>>, <<3, PushA>>, <<3, LLenA>> >> >> : bc \in {BLMove, BRPopLPush} }
 
+\* G (C11): a waiter is woken for an element that is gone again before it looks (RPUSH and LPOP inside one EXEC), goes on
+\* waiting, and then leaves - by its timeout, by CLIENT UNBLOCK, or served by the next push; whatever it registered while it
+\* waited must be gone with it: a later waiter gets the next element, nothing stays in the list while somebody waits
+Rob == << <<3, C("MULTI", <<>>)>>, <<3, PushA>>, <<3, C("LPOP", <<ka>>)>>, <<3, C("EXEC", <<>>)>> >>
+FamG == UNION {
+   { <<S0, << <<1, BLPop1>> >> \o Rob \o << Tk(1200), <<1, PingC>>, <<2, b2>>, <<3, PushA>>, <<3, LLenA>> >> >>,
+     <<S0, << <<1, BLPop0>> >> \o Rob \o << <<3, Unblock(1, "")>>, <<2, b2>>, <<3, PushA>>, <<3, LLenA>> >> >>,
+     <<S0, << <<1, BRPopLPush>> >> \o Rob \o << <<3, Unblock(1, "ERROR")>>, <<2, b2>>, <<3, PushA>>, <<3, LLenA>> >> >>,
+     <<S0, << <<1, BLPop0>> >> \o Rob \o << <<3, PushA>>, <<2, b2>>, <<3, PushA>>, <<3, LLenA>> >> >>,
+     <<S0, << <<1, BLPop0>> >> \o Rob \o Rob \o << <<3, Unblock(1, "")>>, <<2, b2>>, <<4, BLPop0>>, <<3, PushA>>, <<3, PushA>>, <<3, LLenA>> >> >> }
+   : b2 \in {BLPop0, BLMPop, BLMove} }
+
 NoStates == {}
 AnyB(h, st) == TRUE
-ProgsC11 == FamA \cup FamB \cup FamF
+ProgsC11 == FamA \cup FamB \cup FamF \cup FamG
 ProgsC12 == FamC \cup FamD \cup FamE
 =============================================================================
